@@ -2,7 +2,7 @@
 from .. import family, mapcase
 
 PROPS_FILES = ['theories/Props/C13.v']
-FINDINGS_FILES = []
+FINDINGS_FILES = ['theories/Findings/Recorded.v']
 LEVEL = 'proof'
 TRUSTED = ['Model/Spec.v subj_terms / tm_triples / obj_terms: the reading of quoted triples maps (the quoted term for a row is each triple the quoted map generates for that row or for the joined rows)',
            'Model/Mapping.v expand_tm: the expansion of quoted references into one rule per rule of the quoted map; Model/Engine.v quoted branches (tied by the correspondence)']
